@@ -143,7 +143,7 @@ def search(ck, tier, seed):
 
 def run(tier, seed):
     ck = Check("C02", tier, seed, areas=["splines", "nonlin"],
-               gen_groups=["Nonlin", "SplineRQ", "SplineLinear", "SplineQuadratic", "SplineCubic", "Norm", "Utils"])
+               gen_groups=["Nonlin", "SplineRQ", "SplineLinear", "SplineQuadratic", "SplineCubic", "Norm", "Utils", "Context"])
     ck.rule = ("every invertible catalogue transform with random parameters: inverse(forward(x)) and forward(inverse(y)) in "
                "float64 with a tolerance scaled by the local derivative, log-abs-det negation, finiteness; the four spline "
                "functions on knots / end points / interiors for five boxes and five parameter kinds incl. exactly zero; "
